@@ -904,6 +904,7 @@ class Normaliser(object):
         self._defs_to_lambdas()
         if not self.helpers:
             self._ifs_to_conditional_expressions()
+            self._outline()
             return self
         for _ in range(8):
             self.changed = False
@@ -921,9 +922,17 @@ class Normaliser(object):
         self._drop_unused()
         self._propagate_temporaries()
         self._ifs_to_conditional_expressions()
+        self._outline()
         for t in self.trees.values():
             ast.fix_missing_locations(t)
         return self
+
+    def _outline(self):
+        """pinned functions that were inlined into their callers are taken out again where a rule needs them as a unit"""
+        from .outline import outline_roles
+        self.outlined = outline_roles(self.trees, pinned_signatures())
+        for name, host in self.outlined:
+            self.inlined.append((name, host, 'outlined'))
 
     def _ifs_to_conditional_expressions(self):
         """`if c: T = a else: T = b` (one plain assignment to the same target on each side) -> `T = a if c else b`: one form for the
